@@ -1001,3 +1001,33 @@ Proof.
   eapply Permutation_in; [apply Permutation_sym; apply (flat_map_perm live_ids_of); apply sort_frags_perm|].
   exact (rewrite_keeps latest groups ri fri (mkConfig us sf) schema n final idx nri' W EN OK OI EA x I).
 Qed.
+
+(* ================================================================ the fragment-id keyed cache of row id sequences *)
+Lemma cached_ids_ok warm m :
+  Known_C18_rowid_sequence_cache_keyed_by_fragment_id warm m = false ->
+  forall f, In f (m_fragments m) -> cached_ids (cache_of warm) f = ids_of f.
+Proof.
+  unfold Known_C18_rowid_sequence_cache_keyed_by_fragment_id. intros K f I.
+  destruct (ln_eqb (cached_ids (cache_of warm) f) (ids_of f)) eqn:E; [apply ln_eqb_eq; exact E|].
+  assert (existsb (fun f => negb (ln_eqb (cached_ids (cache_of warm) f) (ids_of f))) (m_fragments m) = true); [|congruence].
+  apply existsb_exists. exists f. split; [exact I | rewrite E; reflexivity].
+Qed.
+
+(* create 3 rows (fragment 0, ids 0..2), overwrite with 2 rows (fragment 0 again, ids 3..4): the old version read
+   through a cache warmed by the new one gets the ids [3; 4] for its fragment 0 *)
+Lemma cache_clash_refuted :
+  exists v1 v2, id_history [v2; v1]
+    /\ Known_C18_rowid_sequence_cache_keyed_by_fragment_id v2 v1 = true
+    /\ map (cached_ids (cache_of v2)) (m_fragments v1) = [[3; 4]] /\ map ids_of (m_fragments v1) = [[0; 1; 2]].
+Proof.
+  pose (file3 := fun path rows : N => mkDataFile path [0%Z; 1%Z; 2%Z] (2, 0) rows).
+  eexists. eexists. split.
+  - eapply ih_commit with (us := true) (sf := Some V2_0)
+      (op := Overwrite [mkFragment 0 (Some 2) [file3 2 2] None None None None] [0%Z; 1%Z; 2%Z] false).
+    + eapply ih_create with (op := Overwrite [mkFragment 0 (Some 3) [file3 1 3] None None None None] [0%Z; 1%Z; 2%Z] false) (cfg := mkConfig true (Some V2_0)); vm_compute; reflexivity.
+    + vm_compute; reflexivity.
+    + intros _; vm_compute; reflexivity.
+    + left; reflexivity.
+    + vm_compute; reflexivity.
+  - vm_compute. repeat split; reflexivity.
+Qed.
